@@ -729,7 +729,15 @@ def result_shape(op: List[Any], st: List[Any], sl: List[Any]) -> str:
             return "gnr-fallback"
         return "service-decode"
 
-    return f"strict={cls(st)},lenient={cls(sl)}"
+    cs, cl = cls(st), cls(sl)
+    if cs == cl == "service-decode":
+        # several services were candidates: the fallback to the global negative response is per service
+        ns, nl = [m[0] for m in st[1]], [m[0] for m in sl[1]]
+        if len(ns) == len(nl):
+            diff = [i for i in range(len(ns)) if st[1][i] != sl[1][i]]
+            if diff and all(ns[i] in gnrs and nl[i] not in gnrs for i in diff):
+                cs = "gnr-fallback"
+    return f"strict={cs},lenient={cl}"
 
 
 def strict_failure_site(op: List[Any], sl: List[Any], exc_mod) -> str:
